@@ -55,6 +55,8 @@ type transport struct {
 
 	mu sync.RWMutex
 	ln net.Listener
+	// set by Shutdown (under mu): a serve() that has not created its listener yet must not create it any more
+	shutdown bool
 }
 
 func (t *transport) Listener() net.Listener {
@@ -66,6 +68,10 @@ func (t *transport) Listener() net.Listener {
 func (t *transport) serve() (err error) {
 	network.UnlinkUdsFile(t.network, t.addr) //nolint:errcheck
 	t.mu.Lock()
+	if t.shutdown {
+		t.mu.Unlock()
+		return errTransportShutdown
+	}
 	if t.listenConfig != nil {
 		t.ln, err = t.listenConfig.Listen(context.Background(), t.network, t.addr)
 	} else {
@@ -136,14 +142,19 @@ var (
 	shutdownTimeout = 30 * time.Second
 	shutdownTicker  = 10 * time.Millisecond
 
-	errShutdownTimeout = errors.New("shutdown timeout")
+	errShutdownTimeout   = errors.New("shutdown timeout")
+	errTransportShutdown = errors.New("transport has been shut down")
 )
 
 func (t *transport) Shutdown(ctx context.Context) error {
 	defer func() {
 		network.UnlinkUdsFile(t.network, t.addr) //nolint:errcheck
 	}()
-	if ln := t.Listener(); ln != nil {
+	t.mu.Lock()
+	t.shutdown = true
+	ln := t.ln
+	t.mu.Unlock()
+	if ln != nil {
 		_ = ln.Close()
 	}
 
